@@ -1222,4 +1222,42 @@ def length_direction(repo: Repo) -> RuleRun:
 length_direction.rule_id = "C09.LENGTH-DIRECTION"
 
 
-RULES = [arc_sense, purity, no_alias_store, affine_balance, unit_normal, direction_parts, transform_equals_methods, transform_routing, linear_parts, deep_copy, mirror_matrix, no_shared_parts, arguments_untouched, super_forwarding, inplace_then_read, invalidate_last, live_lengths, private_coordinates, live_arrays, displacement_copied, average_axis, unit_axis, mirror_sense, geometry_role_free, applied_once, shear_unit_direction, length_direction]
+def remembered_points_current(repo: Repo, prop: str = PROP, rule: str = "C09.REMEMBERED-POINTS-CURRENT") -> RuleRun:
+    """'... gives the same vertex positions, arc points ... (and declared geometry) as applying that map to the untransformed
+    entity': a shape that remembers the points defining its searchable surface (so that a mirror cannot swap them away) must
+    remember points of the lofts it ENDS UP with - a constructor that replaces self.lofts after the inherited constructor
+    remembered the points of the first set keeps points that are never transformed: centre and radius of the declared sphere stay
+    where the shape was created. On every path of every constructor, an assignment to self.lofts is followed by _remember_points."""
+    from ..cfg import CFG
+
+    r = RuleRun(prop, rule, floor=2, what="every constructor that (re)assigns self.lofts of a shape with remembered defining points calls _remember_points afterwards on every path")
+    n = 0
+    for cls in sorted(repo.classes.values(), key=lambda c: c.qualname):
+        if repo.find_method(cls, "_remember_points") is None:
+            continue
+        fn = cls.methods.get("__init__")
+        if fn is None:
+            continue
+        g = CFG(fn.node)
+        me = fn.params[0]
+        stores = [n_ for n_ in g.stmt_nodes() if isinstance(n_.stmt, ast.Assign) and any(isinstance(t, ast.Attribute) and t.attr == "lofts" and attr_chain(t.value) == me for t in n_.stmt.targets)]
+        for k, node in enumerate(stores):
+            n += 1
+            ok, path = g.must_pass(node, g.exit_return, lambda x: x is not node and x.kind == "stmt" and any(isinstance(c, ast.Call) and isinstance(c.func, ast.Attribute) and c.func.attr == "_remember_points" for c in ast.walk(x.stmt)))
+            r.check(
+                ok,
+                fn,
+                f"{cls.name}.__init__: lofts assigned at line {node.stmt.lineno}, points remembered afterwards",
+                f"{cls.name}.__init__ replaces self.lofts (line {node.stmt.lineno}) and can return without calling _remember_points again: the remembered centre / surface point belong to lofts that were thrown away and are "
+                "never transformed - after translate / rotate / scale / mirror the shape's geometry (searchableSphere), center and radius still describe the place where it was created",
+                node.stmt,
+                key=f"{cls.name}:lofts#{k}",
+            )
+    r.require(n >= 2, f"only {n} assignments of self.lofts in constructors of shapes with remembered points")
+    return r
+
+
+remembered_points_current.rule_id = "C09.REMEMBERED-POINTS-CURRENT"
+
+
+RULES = [arc_sense, purity, no_alias_store, affine_balance, unit_normal, direction_parts, transform_equals_methods, transform_routing, linear_parts, deep_copy, mirror_matrix, no_shared_parts, arguments_untouched, super_forwarding, inplace_then_read, invalidate_last, live_lengths, private_coordinates, live_arrays, displacement_copied, average_axis, unit_axis, mirror_sense, geometry_role_free, applied_once, shear_unit_direction, length_direction, remembered_points_current]
